@@ -116,3 +116,11 @@ if __name__ == '__main__':
         do_import(sys.argv[2], sys.argv[3])
     elif sys.argv[1] == 'eval':
         do_eval(sys.argv[2], sys.argv[3:])
+    elif sys.argv[1] == 'evalall':
+        # every seeded change against the check of its own property and every check recorded before
+        for d in sorted(os.listdir(os.path.join(VERIF, 'seeded'))):
+            if len(sys.argv) > 2 and not any(d.startswith(x) for x in sys.argv[2:]):
+                continue
+            meta = json.load(open(os.path.join(VERIF, 'seeded', d, 'meta.json')))
+            checks = [meta['property']] + [c for c in meta.get('detected_by', {}) if c != meta['property']]
+            do_eval(d, checks)
